@@ -603,3 +603,4 @@ MANIFEST = dict(
 # values of that connection alone - no byte buffer at package level, no pooled object (or a view of it) used after its
 # Put, no goroutine sharing a buffer with its spawner
 TRUSTED = list(TRUSTED) + ['generated obligations Proofs/AtomFront.v about coq/Gen/Atomicity.v (tools/lockscan, go/ast: package-level variables with the kind of their type, sync.Pool.Put sites with the later mentions of the object or of a local view of its memory - slicings, dereferences, appends, local function literals that mention it, results handed out by a function whose Put is deferred -, variables shared by go statements); re-proved on every run, in a private re-generated copy under VERIF_EXTRA_OVERLAY']
+MANIFEST = dict(MANIFEST, level_note=MANIFEST.get('level_note', '') + ' Generated obligation Proofs/AtomFront.v (re-proved about the source on every run): in the front-door code no byte buffer lives at package level, no pooled object or local view of it is used after its Put, no goroutine shares a buffer with its spawner - what lets the models treat a connection\'s first packet, parsed hello and reply as values of that connection alone.')
